@@ -32,7 +32,7 @@ PROBES = ("repeat_compared", "repeat_after_fault", "repeat_after_refinement", "r
           "tiny_cache", "reverse_wrapper", "adjoint_backward_requery")
 STATE_MEASURE = "distinct final interval-tree shapes (hash of display_binary_tree dump)"
 
-ADJOINT_SHARE = 0.0
+ADJOINT_SHARE = 0.12
 MIX = dict(bm.DEFAULT_MIX)
 MIX.update(requery=6, sweep=3, adaptive=3, triple=1.5)
 
